@@ -447,16 +447,10 @@ Definition send_auth (c : conn) (p : pkt) : R :=
 Definition role_client_ok (g : cfg) : bool := match g_role g with RServer => false | _ => true end.
 Definition role_server_ok (g : cfg) : bool := match g_role g with RClient => false | _ => true end.
 
-(* send(): version check, role check, dispatch *)
-Definition do_send (g : cfg) (c : conn) (p : pkt) : R :=
-  if negb (version_eqb (c_version c) (k_ver p)) then Ok (c, [EError E_VERSION_MISMATCH]) else
+(* the 29-way match of send(), by packet type *)
+Definition dispatch_send (g : cfg) (c : conn) (p : pkt) : R :=
   let t := k_type p in
   let v5 := version_eqb (k_ver p) V50 in
-  let client_only := (t =? T_CONNECT) || (t =? T_SUBSCRIBE) || (t =? T_UNSUBSCRIBE) || (t =? T_PINGREQ)
-                     || ((t =? T_DISCONNECT) && negb v5) in
-  let server_only := (t =? T_CONNACK) || (t =? T_SUBACK) || (t =? T_UNSUBACK) || (t =? T_PINGRESP) in
-  if client_only && negb (role_client_ok g) then Ok (c, not_allowed) else
-  if server_only && negb (role_server_ok g) then Ok (c, not_allowed) else
   if t =? T_CONNECT then send_connect c p
   else if t =? T_CONNACK then send_connack c p
   else if t =? T_PUBLISH then (if v5 then send_publish_v5 g c p else send_publish_v311 c p)
@@ -468,6 +462,18 @@ Definition do_send (g : cfg) (c : conn) (p : pkt) : R :=
   else if t =? T_DISCONNECT then send_disconnect c p
   else if t =? T_AUTH then send_auth c p
   else Ok (c, not_allowed).
+
+(* send(): version check, role check, dispatch *)
+Definition do_send (g : cfg) (c : conn) (p : pkt) : R :=
+  if negb (version_eqb (c_version c) (k_ver p)) then Ok (c, [EError E_VERSION_MISMATCH]) else
+  let t := k_type p in
+  let v5 := version_eqb (k_ver p) V50 in
+  let client_only := (t =? T_CONNECT) || (t =? T_SUBSCRIBE) || (t =? T_UNSUBSCRIBE) || (t =? T_PINGREQ)
+                     || ((t =? T_DISCONNECT) && negb v5) in
+  let server_only := (t =? T_CONNACK) || (t =? T_SUBACK) || (t =? T_UNSUBACK) || (t =? T_PINGRESP) in
+  if client_only && negb (role_client_ok g) then Ok (c, not_allowed) else
+  if server_only && negb (role_server_ok g) then Ok (c, not_allowed) else
+  dispatch_send g c p.
 
 (* ---- error handlers ---- *)
 (* close_with_v5_0_disconnect: a library-generated DISCONNECT that does not fit the peer's
